@@ -1,6 +1,6 @@
 (* FileFacts.v — the slice stream of a file: slices until the end marker (C01, C04), and what a
    reading session makes of every strict prefix of it (C06). *)
-From Sbdf Require Import File BaseFacts PrimFacts ObjFacts VaFacts SliceFacts MdFacts TmFacts.
+From Sbdf Require Import File BaseFacts PrimFacts ObjFacts VaFacts SliceFacts MdFacts TmFacts NormFacts.
 From Coq Require Import ZifyBool.
 
 Section FileFacts.
@@ -167,5 +167,76 @@ Proof.
 Qed.
 
 (* C08: writing back what was read reproduces the file byte for byte.  The re-expanded column
-   metadata folds to the same name list (every column is already in that order). *)
+   metadata folds to the same name list (NormFacts.fold_norm); the reader-owned slices are written
+   like the caller's. *)
+Lemma ts_write_owned cols : ts_write swp (owned_ts cols) = ts_write swp (caller_ts (map owned_cs cols)).
+Proof. unfold ts_write, owned_ts, caller_ts. cbn [tscols]. now rewrite map_map. Qed.
+
+Lemma enc_ts_owned cols : enc_ts swp (map owned_cs cols) = enc_ts swp cols.
+Proof. unfold enc_ts. rewrite zlen_map, map_map. reflexivity. Qed.
+
+Theorem wspec_slices_owned sls ncols : slices_ok ncols sls ->
+  wspec (wfor (map owned_ts sls) (ts_write swp) ;;w ts_write_end) (Ok tt) (enc_slices sls).
+Proof.
+  intros W. unfold enc_slices. eapply wspec_bind; [|apply wspec_end].
+  induction sls as [|cols sls IH]; cbn [map wfor concat]; [apply wspec_ret|].
+  eapply wspec_bind.
+  - rewrite ts_write_owned, <- enc_ts_owned. apply wspec_ts. destruct (W cols (or_introl eq_refl)) as ((Hn & Hc) & _).
+    split; [now rewrite zlen_map|]. intros c Hin. apply in_map_iff in Hin. destruct Hin as (c0 & <- & Hin). exact (Hc c0 Hin).
+  - apply IH. intros c Hc. apply W. now right.
+Qed.
+
+Theorem wf_file_read_back meta sls names : wf_file meta sls names ->
+  wf_file (t_meta (read_back meta sls names)) sls (map cn names).
+Proof.
+  intros [Wm Wd Wf Wn Ws]. destruct Wm as (W1 & W2 & W3 & W4). cbn [read_back t_meta].
+  destruct (fold_columns_spec (tcols meta) names Wf Wd) as (Hnd & Hsub & Hcov).
+  constructor; cbn [tmeta tcols ments].
+  - unfold tm_ok. cbn [tmeta tcols ments]. split; [exact W1|]. split; [exact W2|]. split; [|now rewrite zlen_map].
+    apply Forall_forall. intros c Hc. apply in_map_iff in Hc. destruct Hc as (c0 & <- & Hc0). now apply (col_ok_norm (tcols meta)).
+  - unfold cols_dflt_wf. apply Forall_forall. intros a Ha. apply in_concat in Ha. destruct Ha as (l & Hl & Ha).
+    apply in_map_iff in Hl. destruct Hl as (c & <- & Hc). apply in_map_iff in Hc. destruct Hc as (c0 & <- & Hc0).
+    cbn [norm ments] in Ha. apply in_picked in Ha. destruct Ha as (n & e & Hn & _ & ->). intros d Hd. cbn [edflt] in Hd.
+    unfold cols_dflt_wf in Wd. rewrite Forall_forall in Wd. exact (Wd n (Hsub n Hn) d Hd).
+  - now apply fold_norm.
+  - now rewrite zlen_map.
+  - now rewrite zlen_map.
+Qed.
+
+Theorem enc_file_read_back meta sls names : wf_file meta sls names -> names_plain (tcols meta) ->
+  map cn names = names /\ enc_file (t_meta (read_back meta sls names)) sls names = enc_file meta sls names.
+Proof.
+  intros [Wm Wd Wf Wn Ws] Hp. destruct Wm as (W1 & W2 & W3 & W4).
+  destruct (fold_columns_spec (tcols meta) names Wf Wd) as (Hnd & Hsub & Hcov).
+  split.
+  - rewrite <- (map_id names) at 2. apply map_ext_in. intros n Hn. apply cn_plain.
+    apply Hsub in Hn. apply in_concat in Hn. destruct Hn as (l & Hl & Hn). apply in_map_iff in Hl. destruct Hl as (c & <- & Hc). now apply (Hp c).
+  - unfold enc_file, enc_tm, read_back. cbn [t_meta tmeta tcols ments md_cnt]. unfold md_cnt. cbn [ments]. rewrite zlen_map.
+    do 7 f_equal. rewrite map_map. do 2 f_equal. apply map_ext_in. intros c Hc. now apply (enc_colvals_norm swp (tcols meta)).
+Qed.
+
+Theorem rewrite_file_exact meta sls names : wf_file meta sls names -> names_plain (tcols meta) ->
+  wspec (write_table swp (read_back meta sls names)) (Ok tt) (enc_file meta sls names).
+Proof.
+  intros Wf Hp. destruct (enc_file_read_back meta sls names Wf Hp) as (Ecn & Eenc).
+  pose proof (wf_file_read_back meta sls names Wf) as Wf'. rewrite Ecn in Wf'. rewrite <- Eenc.
+  destruct Wf' as [Wm Wd Wfo Wn Ws]. unfold write_table, enc_file. cbn [t_meta t_slices read_back tcols] in *.
+  destruct (fold_gives_names_ok (map (norm names) (tcols meta)) names) as (Hn & _); [destruct Wm as (_ & _ & Wc & _); exact Wc|exact Wd|exact Wfo|].
+  eapply wspec_bind; [apply wspec_fh|]. eapply wspec_bind; [now apply wspec_tm|].
+  rewrite zlen_map in Ws. exact (wspec_slices_owned sls (zlen (tcols meta)) Ws).
+Qed.
+
+(* and so: read a well-formed file, write what was read: the same bytes (any budget that suffices) *)
+Corollary read_then_write_identity meta sls names budget : wf_file meta sls names -> names_plain (tcols meta) ->
+  zlen (enc_file meta sls names) <= budget ->
+  match read_table swp cap0 None (enc_file meta sls names) with
+  | (Some T, st, _) => st = SBDF_TABLEEND /\ wrun (write_table swp T) budget = (SBDF_OK, enc_file meta sls names)
+  | _ => False
+  end.
+Proof.
+  intros Wf Hp Hb. pose proof (read_file_exact meta sls names [] Wf) as E. rewrite app_nil_r in E. rewrite E.
+  split; [reflexivity|]. pose proof (zlen_nonneg (enc_file meta sls names)).
+  destruct (wspec_run _ _ _ budget (rewrite_file_exact meta sls names Wf Hp) ltac:(lia)) as [H1 _]. now apply H1.
+Qed.
+
 End FileFacts.
